@@ -394,7 +394,11 @@ static void run_subprocess(char **argv) {
     fprintf(stderr, "\n");
   }
 
-  if (fork() == 0) {
+  pid_t pid = fork();
+  if (pid < 0)
+    error("fork failed: %s: %s", argv[0], strerror(errno));
+
+  if (pid == 0) {
     // Child process. Run a new command.
     execvp(argv[0], argv);
     fprintf(stderr, "exec failed: %s: %s\n", argv[0], strerror(errno));
@@ -402,7 +406,7 @@ static void run_subprocess(char **argv) {
   }
 
   // Wait for the child process to finish.
-  int status;
+  int status = -1;
   while (wait(&status) > 0);
   if (status != 0)
     exit(1);
